@@ -24,6 +24,12 @@ def kb(n):
     return -(-n // 1024)
 
 
+def DR(rng):
+    """An independent generator for the extra allocations of the dense twin: it must not consume `rng`, so that both twins of
+    a pair draw identical probes, placements and header fields afterwards."""
+    return random.Random(repr(rng.getstate()[1][:8]))
+
+
 class Giant:
     """A giant image: opener, list of (guest offset, expected-bytes function), metadata size, file(s)."""
 
@@ -33,6 +39,7 @@ class Giant:
 
 # ------------------------------------------------------------------------------------------------ QCOW2
 def giant_qcow2(rng, dense, cb=16, size=64 << 40):
+    _d = DR(rng)
     from dissect.hypervisor.disk.qcow2 import QCow2
     cs = 1 << cb
     l2n = cs // 8
@@ -40,7 +47,7 @@ def giant_qcow2(rng, dense, cb=16, size=64 << 40):
     nl1 = -(-nc // l2n)
     # allocate a handful of clusters far apart (dense: many more in the same tables and other tables)
     hole_table = (nc // 3) // l2n   # the table covering the probed hole stays absent in the dense twin too
-    picks = sorted({0, 1, l2n - 1, l2n, nc // 2 + 7, nc - 1} | ({c for c in (rng.randrange(nc) for _ in range(400)) if c // l2n != hole_table} if dense else set()))
+    picks = sorted({0, 1, l2n - 1, l2n, nc // 2 + 7, nc - 1} | ({c for c in (_d.randrange(nc) for _ in range(400)) if c // l2n != hole_table} if dense else set()))
     l1_off = 3 * cs
     l1_bytes = nl1 * 8
     tab_base = (1 << 41) // cs + 11        # L2 tables beyond 2 TiB
@@ -98,6 +105,7 @@ def giant_qcow2(rng, dense, cb=16, size=64 << 40):
 
 # ------------------------------------------------------------------------------------------------ VMDK
 def giant_vmdk_se(rng, dense):
+    _d = DR(rng)
     from dissect.hypervisor.disk.vmdk import VMDK
     grain = 8
     gt_sectors = 64
@@ -108,7 +116,7 @@ def giant_vmdk_se(rng, dense):
     run0 = gtes * 7 + gtes - rng.randrange(40, 200)          # a run of consecutive allocated grains crossing a table boundary
     runlen = rng.randrange(300, 600)
     picks = sorted({0, 5, gtes, ng // 2, ng - 1} | set(range(run0, run0 + runlen))
-                   | ({g for g in (rng.randrange(ng) for _ in range(300)) if g // gtes != (ng // 3) // gtes} if dense else set()))
+                   | ({g for g in (_d.randrange(ng) for _ in range(300)) if g // gtes != (ng // 3) // gtes} if dense else set()))
     pos_base = (1 << 33)                         # cluster index >= 2^33: grains beyond sector 2^36
     pos = {g: pos_base + (len(picks) - k) * 3 for k, g in enumerate(picks)}
     tabs = sorted({g // gtes for g in picks})
@@ -156,12 +164,13 @@ def giant_vmdk_se(rng, dense):
 
 
 def giant_vmdk_hosted(rng, dense):
+    _d = DR(rng)
     from dissect.hypervisor.disk.vmdk import VMDK
     grain, gtes = 128, 512
     cap = (1 << 32) + 12345                     # more than 2^32 sectors
     ng = -(-cap // grain)
     ngd = -(-cap // (gtes * grain))
-    picks = sorted({0, 3, gtes, ng // 2, ng - 1} | ({rng.randrange(ng) for _ in range(300)} if dense else set()))
+    picks = sorted({0, 3, gtes, ng // 2, ng - 1} | ({_d.randrange(ng) for _ in range(300)} if dense else set()))
     gd_off = 8
     gd_sectors = -(-(ngd * 4) // 512)
     gt0 = gd_off + gd_sectors
@@ -291,6 +300,7 @@ def _hosted_extent(cap, grain, gtes, place, fid):
 
 
 def giant_vmdk_descriptor(rng, dense):
+    _d = DR(rng)
     """A delta disk and its parent, each a descriptor naming 8 hosted sparse extents of 2 TiB (real sparse files in a scratch
     directory; reads counted through pathlib.Path.open): opening maps every extent of both layers once."""
     import shutil
@@ -310,7 +320,7 @@ def giant_vmdk_descriptor(rng, dense):
             fid = (0 if layer == "delta" else 20) + k
             want = {0, 3, gtes, ng // 2, ng - 1} if layer == "parent" else {3, ng // 2 + gtes}
             if dense:
-                want |= {g for g in (rng.randrange(ng) for _ in range(40)) if g not in (ng // 3, 0, gtes, ng // 2, ng - 1, 3, ng // 2 + gtes)}
+                want |= {g for g in (_d.randrange(ng) for _ in range(40)) if g not in (ng // 3, 0, gtes, ng // 2, ng - 1, 3, ng // 2 + gtes)}
             base = 4096 + rng.randrange(0, 64) * grain
             pl = {g: base + 2 * j * grain + (1 << 20) for j, g in enumerate(sorted(want))}
             vf, m = _hosted_extent(cap, grain, gtes, pl, fid)
@@ -346,18 +356,20 @@ def giant_vmdk_descriptor(rng, dense):
 
 # ------------------------------------------------------------------------------------------------ VHDX / VHD / VDI / HDS
 def giant_vhdx(rng, dense, sector=512):
+    _d = DR(rng)
     from dissect.hypervisor.disk.vhdx import VHDX
     bs = 256 << 20
     nb = (64 << 40) // bs
     cr = (2 ** 23 * sector) // bs               # chunk ratio: a sector-bitmap entry is interleaved after every cr payload entries
     near = [0, cr - 1, cr, cr + 1, nb // 2, nb - 1]
-    picks = sorted(set(near) | ({rng.randrange(nb) for _ in range(300)} if dense else set()))
+    picks = sorted(set(near) | ({_d.randrange(nb) for _ in range(300)} if dense else set()))
     blocks = [(enc_vhdx.ST_NOT_PRESENT, None)] * nb
     top = (1 << 38) // (bs >> 20) - 2 * len(picks) - 8    # block slots around MB offset 2^38 (file offsets near 2^58 bytes)
     pos = {}
     for k, b in enumerate(picks):
         pos[b] = top + 2 * (len(picks) - k)
-    blocks = [(enc_vhdx.ST_FULL, pos[b]) if b in pos else (rng.choice([0, 2, 3]), None) for b in range(nb)]
+    _st = random.Random(7)    # (independent of rng: the number of draws differs between the twins)
+    blocks = [(enc_vhdx.ST_FULL, pos[b]) if b in pos else (_st.choice([0, 2, 3]), None) for b in range(nb)]
     # regions far into the file too (the BAT is relocated towards the end when a disk is expanded): metadata beyond 4 GiB,
     # BAT beyond 32 GiB, payload after it
     vf, info = enc_vhdx.build(blocks, block_size=bs, sector_size=sector, disk_size=nb * bs, meta_mb=(5 << 10) + 3, bat_mb=(36 << 10) + 1)
@@ -371,10 +383,11 @@ def giant_vhdx(rng, dense, sector=512):
 
 
 def giant_vhd(rng, dense):
+    _d = DR(rng)
     from dissect.hypervisor.disk.vhd import VHD
     bs = 2 << 20
     nb = (2040 << 30) // bs
-    picks = sorted({0, 1, nb // 2, nb - 1} | ({rng.randrange(nb) for _ in range(300)} - {nb // 3} if dense else set()))   # nb // 3 stays a hole (probed)
+    picks = sorted({0, 1, nb // 2, nb - 1} | ({_d.randrange(nb) for _ in range(300)} - {nb // 3} if dense else set()))   # nb // 3 stays a hole (probed)
     stride = bs + 512
     top = ((1 << 32) - 8) * 512 // stride - 2 * len(picks) - 4             # block sector offsets just below 2^32, above 2^31
     pos = {b: top + 2 * (len(picks) - k) for k, b in enumerate(picks)}
@@ -412,10 +425,11 @@ def giant_vhd(rng, dense):
 
 
 def giant_vdi(rng, dense):
+    _d = DR(rng)
     from dissect.hypervisor.disk.vdi import VDI
     bs = 1 << 20
     nb = (2 << 40) // bs
-    picks = sorted({0, 1, nb // 2, nb - 1} | ({rng.randrange(nb) for _ in range(300)} - {nb // 3} if dense else set()))   # nb // 3 stays a hole (probed)
+    picks = sorted({0, 1, nb // 2, nb - 1} | ({_d.randrange(nb) for _ in range(300)} - {nb // 3} if dense else set()))   # nb // 3 stays a hole (probed)
     pos = {b: (1 << 21) - 5 - 2 * k for k, b in enumerate(picks)}          # physical positions near 2^21 blocks (2 TiB into the file)
     blocks_offset = 512
     data_offset = (blocks_offset + 4 * nb + 511) // 512 * 512
@@ -442,11 +456,12 @@ def giant_vdi(rng, dense):
 
 
 def giant_hds(rng, dense, ver=2):
+    _d = DR(rng)
     from dissect.hypervisor.disk.hdd import HDS
     cs = 1 << 20
     spc = cs // 512
     n = (((4 << 40) + (rng.randrange(1, 1 << 20) << 20)) // cs) if ver == 2 else ((1 << 40) // cs)   # v1: 32-bit sector count
-    picks = sorted({0, 1, n // 2, n - 1} | ({rng.randrange(n) for _ in range(300)} - {n // 3} if dense else set()))   # n // 3 stays a hole (probed)
+    picks = sorted({0, 1, n // 2, n - 1} | ({_d.randrange(n) for _ in range(300)} - {n // 3} if dense else set()))   # n // 3 stays a hole (probed)
     hdr_clusters = -(-(64 + 4 * n) // cs)
     if ver == 2:
         pos = {c: (1 << 23) - 3 - 2 * k for k, c in enumerate(picks)}     # cluster index ~2^23: 8 TiB into the file
@@ -482,6 +497,7 @@ def giant_hds(rng, dense, ver=2):
 
 
 def giant_vdi_parent(rng, dense):
+    _d = DR(rng)
     """A differencing VDI over a parent VDI, both 2 TiB: what a read costs in the parent is bounded like any other read."""
     from dissect.hypervisor.disk.vdi import VDI
     bs = 1 << 20
@@ -505,8 +521,8 @@ def giant_vdi_parent(rng, dense):
         ext = [(0, len(hdr), "bytes", hdr), (blocks_offset, 4 * nb, "fn", map_gen)] + [(data_offset + p * bs, bs, "pat", fid) for p in pos.values()]
         return VirtualFile(max(e[0] + e[1] for e in ext), ext, fid=fid), pos
     hole = nb // 3
-    child_picks = {0, nb // 2} | ({x for x in (rng.randrange(nb) for _ in range(200)) if x not in (hole, 1, nb - 1, 7)} if dense else set())
-    parent_picks = {1, 7, nb - 1, nb // 2} | ({x for x in (rng.randrange(nb) for _ in range(200)) if x != hole} if dense else set())
+    child_picks = {0, nb // 2} | ({x for x in (_d.randrange(nb) for _ in range(200)) if x not in (hole, 1, nb - 1, 7)} if dense else set())
+    parent_picks = {1, 7, nb - 1, nb // 2} | ({x for x in (_d.randrange(nb) for _ in range(200)) if x != hole} if dense else set())
     cvf, cpos = layer(0, child_picks, (1 << 21) - 5, True)
     pvf, ppos = layer(1, parent_picks, (1 << 21) - 9, False)
     probes = []
@@ -525,13 +541,14 @@ def giant_vdi_parent(rng, dense):
 
 
 def giant_vmdk_stream(rng, dense):
+    _d = DR(rng)
     """A stream-optimised extent (compressed grains, grain directory behind the data, located through the footer): opening reads
     header, footer, descriptor and directory - not the grain area, however much of it there is."""
     from dissect.hypervisor.disk.vmdk import VMDK
     grain, gtes = 128, 512
     cap = (16 << 30) // 512
     ng = cap // grain
-    want = sorted({0, 3, gtes, ng // 2, ng - 1} | ({x for x in (rng.randrange(ng) for _ in range(1500)) if x != ng // 3} if dense else set()))
+    want = sorted({0, 3, gtes, ng // 2, ng - 1} | ({x for x in (_d.randrange(ng) for _ in range(1500)) if x != ng // 3} if dense else set()))
     ents = [("U", 0)] * ng
     for k, g in enumerate(want):
         ents[g] = ("D", k + 1)
@@ -550,6 +567,7 @@ def giant_vmdk_stream(rng, dense):
 
 
 def giant_vhdx_diff(rng, dense):
+    _d = DR(rng)
     """A differencing VHDX (12 TiB) over a parent, on real sparse files: partially present blocks in chunks far beyond the first
     one, sector bitmaps and payload several TiB into the file."""
     import shutil
@@ -561,7 +579,7 @@ def giant_vhdx_diff(rng, dense):
     nb = (12 << 40) // bs
     cr = (2 ** 23 * sector) // bs
     root = tempfile.mkdtemp(prefix="verif-c13x-")
-    pick = sorted({0, cr + 1, 5 * cr - 1, nb // 2, nb - 1} | ({x for x in (rng.randrange(nb) for _ in range(60)) if x != nb // 3} if dense else set()))
+    pick = sorted({0, cr + 1, 5 * cr - 1, nb // 2, nb - 1} | ({x for x in (_d.randrange(nb) for _ in range(60)) if x != nb // 3} if dense else set()))
     top = (6 << 20) // (bs >> 20)                 # block slots ~6 TiB into the file
     ppos = {b: top + 2 * k for k, b in enumerate(pick)}
     cpos = {b: top + 2 * k + 1 for k, b in enumerate(pick)}
